@@ -360,6 +360,7 @@ impl<D: Distance> Writer<D> {
     /// Returns an iterator over the items vector.
     pub fn iter<'t>(&self, rtxn: &'t RoTxn) -> Result<ItemIter<'t, D>> {
         Ok(ItemIter {
+            dimensions: self.dimensions,
             inner: self
                 .database
                 .remap_key_type::<PrefixCodec>()
